@@ -148,7 +148,13 @@ fn stress_mpsc(k: u64, n: u64) -> String {
             return "fail send-error".to_string();
         }
     }
-    "ok".to_string()
+    // all clones are gone with their threads; dropping the last handle must close the channel (fixes/D39.patch)
+    drop(tx);
+    match block_timeout(std::time::Duration::from_secs(5), rx.receive()) {
+        Ok(None) => "ok".to_string(),
+        Ok(Some(_)) => "fail value-after-all-received".to_string(),
+        Err(_) => "fail no-disconnect".to_string(),
+    }
 }
 
 fn stress_notif(n: u64) -> String {
